@@ -195,6 +195,9 @@ def run(ctx):
                 'update_softmax_options(hard=True) or the hard_softmax attribute, temperatures {1,.05,.5,5,20}; ALL winner combinations when every block has <= 4 branches, otherwise '
                 'sampled combinations that always include winners 1, 10, 11 and every branch ending in a functional op; one case = (network, coefficients); '
                 'non-trivial = some winner is not branch 0; distinct by (network, winners)')
+    ctx.assumptions += ['torch.fx graph surgery of export_graph is abstracted to its effect on the chain IR (pinned by node sequence / module tree / exact outputs per case)',
+                        'layer semantics abstract (premise apply_ext); hard sampling modelled as one_hot(argmax alpha), coefficients >= 1/16 apart',
+                        'IR = chain of fixed layers, functional ops and choice blocks; exactness of outputs relies on integer weights/inputs in float64 (|values| < 2^50 asserted)']
     rng = ctx.rng
     nets = [(d, [{'alphas': [G.gen_alpha(random.Random(i), len(b['branches']), w[bi]) for bi, b in enumerate(d['blocks'])], 'how': 'update', 'temp': None} for i, w in enumerate(wins)], tag)
             for d, wins, tag in corpus()]
